@@ -59,3 +59,29 @@ Theorem c14_length_fields_wide :
   fsz_libwifi_frame__header_len = host_sizeof_size_t /\ 8 <= host_sizeof_size_t.
 Proof. repeat split; try reflexivity; try (vm_compute; discriminate). Qed.
 Print Assumptions c14_length_fields_wide.
+
+(* ---- statements about the C code AS TRANSLATED on this run (Gen/Sites.v: every guard, declaration, conversion and call argument with the
+   types clang computed; tools/sites.py), for every memory m and every environment: tie #1 extended from constants to arithmetic and
+   control flow.  Vocabulary in Spec/CodeSpec.v, evaluator and interpreter in Base/CExpr.v, proofs in Proofs/SitesProofs.v. ---- *)
+From Coq Require Import String.
+From LW Require Import Base.CExpr Gen.Sites Spec.CodeSpec Proofs.SitesProofs.
+Local Open Scope string_scope.
+Local Open Scope Z_scope.
+
+(* dl = detail->detail_length, n = data_len, q = what the allocator answers.  A range for q is needed: the copy's
+   destination is computed as the pointer sum q + dl, which has to stay an address (below 2^63), whence [q + dl < 2^63]. *)
+Theorem c14_code_add_action_detail : forall m rho dl n q,
+  0 <= dl < 256 -> 0 <= n < 2 ^ 63 ->
+  (if (dl =? 0)%Z then rho "ret:malloc" else rho "ret:realloc") = q ->
+  0 <= q -> q + dl < 2 ^ 63 ->
+  let rho0 := upd (upd rho "detail->detail_length" dl) "data_len" n in
+  let alloc := if (dl =? 0)%Z then ("malloc", [n]) else ("realloc", [wrap u64 (rho "detail->detail"); n + dl]) in
+  if (n =? 0)%Z then observe (exec 40 m rho0 [] body_libwifi_add_action_detail) = Some (Some dl, [])
+  else if n + dl >? 255 then observe (exec 40 m rho0 [] body_libwifi_add_action_detail) = Some (Some (2 ^ 64 - 22), [])
+  else if (q =? 0)%Z then observe (exec 40 m rho0 [] body_libwifi_add_action_detail) = Some (Some (2 ^ 64 - 12), [alloc])
+  else exists rho',
+    exec 40 m rho0 [] body_libwifi_add_action_detail =
+      Returned (Some (dl + n)) rho' [alloc; ("memcpy", [q + dl; wrap u64 (rho "data"); n])] /\
+    rho' "detail->detail_length" = dl + n.
+Proof. exact code_add_action_detail. Qed.
+Print Assumptions c14_code_add_action_detail.
